@@ -95,6 +95,7 @@ def _write_cog(
     ovr_blocksize: Optional[int] = None,
     use_windowed_writes: bool = False,
     intermediate_compression: Union[bool, str, Dict[str, Any]] = False,
+    ydim: Optional[int] = None,
     **extra_rio_opts,
 ) -> Union[Path, bytes]:
     if blocksize is None:
@@ -111,9 +112,12 @@ def _write_cog(
         nbands = 1
         band = 1  # type: Any
     elif pix.ndim == 3:
-        if pix.shape[:2] == geobox.shape:
+        # ydim: caller knows which axes are spatial, guessing from shape is
+        # ambiguous when band count equals height and width
+        band_last = pix.shape[:2] == geobox.shape if ydim is None else ydim == 0
+        if band_last:
             pix = pix.transpose([2, 0, 1])
-        elif pix.shape[-2:] != geobox.shape:
+        if pix.shape[-2:] != geobox.shape:
             raise ValueError("GeoBox shape does not match image shape")
 
         nbands, h, w = pix.shape  # type: ignore
@@ -298,6 +302,7 @@ def write_cog(
         overview_resampling=overview_resampling,
         overview_levels=overview_levels,
         use_windowed_writes=use_windowed_writes,
+        ydim=geo_im.odc.ydim,
         intermediate_compression=intermediate_compression,
         **extra_rio_opts,
     )
@@ -430,6 +435,7 @@ def write_cog_layers(
                 img.odc.geobox,
                 m.name,
                 overview_levels=[],
+                ydim=img.odc.ydim,
                 **first_pass_cfg,
             )
 
